@@ -164,6 +164,7 @@ func (s *MediaSegment) Fragmentify(timescale uint64, trex *TrexBox, duration uin
 	var of *Fragment
 
 	var cumDur uint32 = 0
+	var nextDecodeTime uint64 = 0 // decode time following the last sample written
 
 	for _, inFrag := range inFragments {
 		trackID := inFrag.Moof.Traf.Tfhd.TrackID
@@ -173,6 +174,12 @@ func (s *MediaSegment) Fragmentify(timescale uint64, trex *TrexBox, duration uin
 			return nil, err
 		}
 		for _, s := range samples {
+			if cumDur != 0 && s.DecodeTime != nextDecodeTime {
+				// Decode time discontinuity in the input. The decode times inside a fragment
+				// are implicit (tfdt + durations), so a new fragment is needed to keep them.
+				cumDur = 0
+			}
+			nextDecodeTime = s.DecodeTime + uint64(s.Dur)
 			if cumDur == 0 {
 				var err error
 				of, err = CreateFragment(inFrag.Moof.Mfhd.SequenceNumber, trackID)
